@@ -14,6 +14,8 @@ TOKENS = {
     'EOF': -1, 'ERR': 0, '{': 123, '}': 125, '(': 40, ')': 41, '=': 61, '+=': 43, ',': 44, 'STR': 3, 'COMMENT': 8,
 }
 TOKNAME = {v: k for k, v in TOKENS.items()}
+import re as _re
+NOTFOUND = _re.compile(r'^!cfg_getopt\(\)#\d+$')
 RET = {-1: 'STATE_EOF', 0: 'STATE_CONTINUE', 1: 'STATE_ERROR'}
 
 
